@@ -102,9 +102,9 @@ package fzf
 // buildResult: the rank of a result.  Slot 3-k holds the value of the k-th criterion (compareRanks reads slot 3
 // first): the score criterion stores 65535 - score, so a higher score ranks first; the length criterion the trimmed
 // length; never an index outside the four slots or outside the line.
-// (verified from the statement after the offsets have been sorted: sort.Sort over an interface value is outside the
+// (a second contract - callers use the short assumed one further down - verified from the statement after the offsets have been sorted: sort.Sort over an interface value is outside the
 //  subset; that every offset lies inside the line - what the matchers guarantee - is assumed for the sorted slice)
-//@ func buildResult region @"result := Result{item: item}"
+//@ func buildResult region#2 @"result := Result{item: item}"
 //@ property C04
 //@ requires item != nil && validChars(&item.text) && len(sortCriteria) <= 4
 //@ requires forall(k, 0, len(offsets), 0 <= offsets[k][0] && offsets[k][0] <= offsets[k][1] && offsets[k][1] <= clen(&item.text))
